@@ -1,7 +1,8 @@
 """C10 — Tucker decompositions meet their error bound and structural contract.
 
 Decided (structural necessary conditions in hosvd.py / tucker_als.py):
-  THR     the per-mode threshold equals tol^2 * ||X||^2 / d with ||X||^2 the collapsed element-wise square (E7)
+  THR     the per-mode threshold equals tol^2 * ||X||^2 / d with ||X||^2 the collapsed element-wise square (E7), and it is compared with
+          the reverse cumulative sums of the eigenvalues (the discarded tail's energy), not with the eigenvalues themselves
   UNITS   index vs count: `np.where(..)[0][-1]` is an INDEX, a requested rank a COUNT; the stop of the slice that
           selects the leading eigenvectors is a COUNT on every reaching definition of the rank (an index needs + 1,
           a count must not get it)
@@ -48,6 +49,39 @@ def thr(prog: Program, res: Result) -> None:
         res.bad("THR", fi.short, desc, where, how)
     else:
         res.undecided("THR", fi.short, desc, where, how)
+    # what the threshold is compared with: the energy of the discarded TAIL (reverse cumulative sums), not single eigenvalues
+    all_defs: Dict[str, List[ast.expr]] = {}
+    for n in ast.walk(fi.node):
+        if isinstance(n, ast.Assign) and len(n.targets) == 1 and isinstance(n.targets[0], ast.Name):
+            all_defs.setdefault(n.targets[0].id, []).append(n.value)
+
+    def reaches_cumsum(e: ast.expr, seen=(), names=("cumsum",)) -> bool:
+        for x in ast.walk(e):
+            if isinstance(x, ast.Call) and ((dotted(x.func) or "").split(".")[-1] in names
+                                            or (isinstance(x.func, ast.Attribute) and x.func.attr in names)):
+                return True
+            if isinstance(x, ast.Name) and x.id in all_defs and x.id not in seen:
+                if any(reaches_cumsum(d, seen + (x.id,), names) for d in all_defs[x.id]):
+                    return True
+        return False
+    cmps = [c for c in ast.walk(fi.node) if isinstance(c, ast.Compare) and len(c.ops) == 1
+            and any(isinstance(x, ast.Name) and x.id == "eigsumthresh" for x in ast.walk(c))]
+    desc2 = "the threshold is compared with the reverse cumulative sums of the eigenvalues (energy of the discarded tail)"
+    if not cmps:
+        res.undecided("THR", fi.short, desc2, prog.loc(fi), "no comparison with the threshold found")
+    for c in cmps:
+        sides = [c.left, c.comparators[0]]
+        other = [x for x in sides if not any(isinstance(y, ast.Name) and y.id == "eigsumthresh" for y in ast.walk(x))]
+        if len(other) != 1:
+            res.undecided("THR", fi.short, desc2, prog.loc(fi, c), "comparison form not recognised")
+        elif reaches_cumsum(other[0]):
+            res.ok("THR", fi.short, desc2, prog.loc(fi, c), ast.unparse(c))
+        elif reaches_cumsum(other[0], names=("sum", "accumulate", "add", "cumulative_sum", "dot", "trace", "nansum", "reduce")):
+            res.undecided("THR", fi.short, desc2, prog.loc(fi, c), f"`{ast.unparse(other[0])}` is built by a summation other than np.cumsum")
+        else:
+            res.bad("THR", fi.short, desc2, prog.loc(fi, c),
+                    f"`{ast.unparse(other[0])}` is not derived from a cumulative sum: single eigenvalues are compared with a bound on their SUM, so several "
+                    "small trailing eigenvalues that together exceed the budget are all discarded and the error bound is missed")
     desc = "||X||^2 is the sum of the squared entries and d the number of modes"
     nx = ast.unparse(defs["normxsqr"][0].value) if "normxsqr" in defs else ""
     dd = ast.unparse(defs["d"][0].value) if "d" in defs else ""
@@ -313,7 +347,7 @@ def check(prog: Program, res: Result, tier: str) -> None:
     res.explanation = __doc__.split("\n\n", 1)[1]
     res.assumptions = ["scipy.linalg.eigh returns ascending real eigenvalues and orthonormal eigenvector columns",
                        "ttm(.., transpose=True) multiplies by the transposed matrices (C02)"]
-    res.floors = {"THR": 2, "UNITS": 1, "EIG": 2, "TTM-T": 4, "FIT": 3, "SLOT": 4}
+    res.floors = {"THR": 3, "UNITS": 1, "EIG": 2, "TTM-T": 4, "FIT": 3, "SLOT": 4}
     rank_by_mode(prog, res)
     slot(prog, res)
     thr(prog, res)
